@@ -61,12 +61,24 @@ CheckItem(i, j) ==
   /\ Emit => PrintT(ToJson([kind |-> "vec", id |-> i * 1000 + j, ty |-> i, cls |-> it.cls, chain |-> it.chain, v |-> ExportV(it.v),
                             hops |-> [h \in 1..Len(hops) |-> [ok |-> hops[h].ok, out |-> ExportV(hops[h].out), alt |-> ExportV(alt[h])]]]))
 
+\* every type expression of the list FT (in every run, whatever slice of it the corpus uses): its samples are
+\* instances with the predicted re-encoding, its structural non-instances are rejected, and on the whole value
+\* pool "is an instance" coincides with "is accepted by the generated code"
+CheckFT(n) ==
+  LET t == FT[n] IN
+  /\ TypeOk(t) /\ Nesting(t) <= 2
+  /\ ThmType(t, Samples(t), Pool \o Deep(t))
+  /\ \A i \in 1..Len(Deep(t)) : ~Conforms(Deep(t)[i], t)
+  /\ \A i \in 1..Len(KindWrongs(t)) : ~Trans(KindWrongs(t)[i], t).ok
+
 VARIABLES a, b
 Init == a = 0 /\ b = 0
 Next == \/ a = 0 /\ a' \in 1..NT /\ b' = 0
         \/ a > 0 /\ b = 0 /\ a' = a /\ b' \in 1..Len(C[a].items)
+        \/ a = 0 /\ a' = -1 /\ b' \in 1..NFT
 Spec == Init /\ [][Next]_<<a, b>>
-Theorems == a > 0 => IF b = 0 THEN CheckDef(a) ELSE CheckItem(a, b)
+Theorems == /\ a > 0 => IF b = 0 THEN CheckDef(a) ELSE CheckItem(a, b)
+            /\ a = -1 => CheckFT(b)
 
 \* sanity of the corpus as a whole
 ASSUME \A i \in 1..NT : Len(C[i].items) > 0
